@@ -830,6 +830,24 @@ def flatten_model(rec, sep):
     return out
 
 
+def paths_of(rec):
+    """Key paths (lists of components) of every flattened name of a record."""
+    out = []
+
+    def walk(path, v):
+        if isinstance(v, C.JObj) and v:
+            for k, x in v:
+                walk(path + [k], x)
+        elif isinstance(v, list) and v:
+            for i, x in enumerate(v):
+                walk(path + [str(i + 1)], x)
+        else:
+            out.append(path)
+    for k, x in rec:
+        walk([k], x)
+    return out
+
+
 def tree_diff(e, g, path="$"):
     """Structure exactly, scalar leaves by text. -> None or a description."""
     if isinstance(e, C.JObj):
@@ -884,6 +902,13 @@ def nest_case(case):
     expected = [documented_unflatten(r) for r in recs]
     res = case_result(_h("nest", fmt, sep, repr(recs)), False, evals=0)
     flat = [flatten_model(r, sep) for r in recs]
+    # Keys free of the separator are not enough for a multi-character separator: "11_" + "__" + "x" reads back as
+    # "11" / "_x" under ANY splitting rule.  Such names are outside the domain where the joined name determines the path
+    # (a thorough-tier false alarm at seed 1 came from a generated key ending in "_" under the separator "__").
+    if any(sep.join(pth).split(sep) != pth for r in recs for pth in paths_of(r)):
+        res["skipped"] += 1
+        bump(res, "nest_skipped_joined_name_ambiguous")
+        return res
     # domain of the tabular hop
     for fr in flat:
         if not fr or len({k for k, _ in fr}) != len(fr):
